@@ -819,7 +819,10 @@ func callsCases(prop, tier string, seed int64) []callsCase {
 	var out []callsCase
 	th := tier == "thorough"
 	kinds := []string{"mock", "tcp", "udp", "http"}
-	if th {
+	if prop == "c12" {
+		kinds = append(kinds, "ws", "unix")
+	}
+	if th || prop == "c13" { // the C13 cases are few and short: every transport in both tiers
 		kinds = rpcenv.Kinds
 	}
 	framed := func(k string) bool { return k == "tcp" || k == "unix" || k == "udp" }
